@@ -155,11 +155,16 @@ def native(copy, tests, timeout=3000):
     tests: (file, testname, bound-text, tier[, env-dict]).  Each test prints
     `NB-RESULT name=<n> status=ok|fail|undecided cases=<N> key=<k> detail=<text>`.  A test with an env dict is
     run in --release (deeper bound)."""
-    tdir = os.path.join(copy, 'main', 'tests')
-    os.makedirs(tdir, exist_ok=True)
     out_all = {}
+    # a file name `derive:<f>` is placed in derive/tests (both pest_derive and pest_typed_derive available there)
+    def place(f):
+        crate, pkg, base = ('derive', 'pest_typed_derive', f[7:]) if f.startswith('derive:') else ('main', 'pest_typed', f)
+        return crate, pkg, base
     for f in sorted(set(t[0] for t in tests)):
-        shutil.copy(os.path.join(VERIF, 'native', f + '.rs'), os.path.join(tdir, 'verif_' + f + '.rs'))
+        crate, pkg, base = place(f)
+        tdir = os.path.join(copy, crate, 'tests')
+        os.makedirs(tdir, exist_ok=True)
+        shutil.copy(os.path.join(VERIF, 'native', base + '.rs'), os.path.join(tdir, 'verif_' + base + '.rs'))
     t0 = time.time()
     groups = {}
     for t in tests:
@@ -169,7 +174,8 @@ def native(copy, tests, timeout=3000):
         env = dict(os.environ)
         env['CARGO_NET_OFFLINE'] = 'true'
         env.update(dict(envt))
-        cmd = ['cargo', 'test', '--offline', '-p', 'pest_typed', '--test', 'verif_' + f] + (['--release'] if envt else []) + ['--']
+        crate, pkg, base = place(f)
+        cmd = ['cargo', 'test', '--offline', '-p', pkg, '--test', 'verif_' + base] + (['--release'] if envt else []) + ['--']
         cmd += [t[1] for t in ts] + ['--exact', '--nocapture', '--test-threads', '8']
         try:
             p = subprocess.run(cmd, cwd=copy, env=env, capture_output=True, text=True, timeout=timeout)
